@@ -4924,44 +4924,35 @@ class NetCDFWrite(IOWrite):
 
             # Fail ASAP if can't perform the operation:
             # 1. because attempting to append at least one field with group(s)
-            if fmt == "NETCDF4":
-                for f in fields:
-                    if self.implementation.nc_get_variable_groups(f):
-                        raise ValueError(
-                            "At present append mode is unable to append fields "
-                            "which have groups, however groups can be cleared, "
-                            "the fields appended, and groups re-applied, via "
-                            "methods such as 'nc_clear_variable_groups' and "
-                            "'nc_set_variable_groups', to achieve the same."
-                        )
+            for f in fields:
+                if self.implementation.nc_get_variable_groups(f):
+                    raise ValueError(
+                        "At present append mode is unable to append fields "
+                        "which have groups, however groups can be cleared, "
+                        "the fields appended, and groups re-applied, via "
+                        "methods such as 'nc_clear_variable_groups' and "
+                        "'nc_set_variable_groups', to achieve the same."
+                    )
 
             # 2. because the featureType on the original fields and the fields
             # to be appended are incompatible:
-            original_ft = False  # no FT, distinguish from 'None' attr. value
-            appended_fields_fts = []
+            original_ft = None  # the featureType of the original file
+            appended_fields_fts = set()
             for ef in effective_fields:  # i.e original fields
                 if "featureType" in ef.nc_global_attributes():
-                    original_ft = ef.nc_global_attributes()["featureType"]
+                    original_ft = ef.get_property("featureType", None)
             for f in fields:  # i.e. fields to be appended
-                if (
-                    "featureType" in f.nc_global_attributes()
-                    and f.nc_global_attributes()["featureType"] is not None
-                ):
-                    appended_fields_fts.append(
-                        f.nc_global_attributes()["featureType"]
-                    )
-            # Incompatible if: 1) the appended fields have more than one
-            # FT between them, 2) the original FT is not appropriate for
-            # all appended fields, or 3) there is no original FT but one
-            # or more across all appended fields.
-            if (
-                len(appended_fields_fts) > 1
-                or (
-                    len(appended_fields_fts) == 1
-                    and original_ft is not False
-                    and original_ft != appended_fields_fts[0]
-                )
-                or (appended_fields_fts and original_ft is not False)
+                ft = f.nc_global_attributes().get("featureType")
+                if ft is None:
+                    ft = f.get_property("featureType", None)
+                if ft is not None:
+                    appended_fields_fts.add(ft)
+            # Incompatible if the appended fields have a featureType
+            # that is not the featureType of the original file (which
+            # includes the cases of more than one featureType between
+            # them, and of no original featureType).
+            if appended_fields_fts and appended_fields_fts != set(
+                (original_ft,)
             ):
                 raise ValueError(
                     "Can't append fields with an incompatible 'featureType' "
